@@ -23,6 +23,11 @@ pub struct CfgCase {
     /// the name looked up: a flat file name or a name of several components
     #[serde(default = "default_cfg_name")]
     pub name: String,
+    /// Memfs only: the filesystem's cwd (relative candidates resolve against it) and files that sit elsewhere
+    #[serde(default)]
+    pub cwd: Option<String>,
+    #[serde(default)]
+    pub decoys: Vec<String>,
 }
 
 fn default_cfg_name() -> String {
@@ -224,9 +229,10 @@ pub fn check_cfg(case: &CfgCase) -> CaseResult {
             },
         }
     } else {
-        let files: Vec<String> = case.present.iter().map(|d| format!("{}/{}", d.trim_end_matches('/'), case.name)).collect();
+        let mut files: Vec<String> = case.present.iter().map(|d| format!("{}/{}", d.trim_end_matches('/'), case.name)).collect();
+        files.extend(case.decoys.iter().cloned());
         let contains = cands.iter().map(|d| case.present.contains(d)).collect();
-        match probe(env, &[json!({"op":"config_dir_mem","name":case.name,"files":files})]) {
+        match probe(env, &[json!({"op":"config_dir_mem","name":case.name,"files":files,"cwd":case.cwd})]) {
             Ok(r) => (r[0].clone(), contains),
             Err(e) => {
                 ctx().inconclusive(&format!("envprobe child failed: {}", e));
@@ -359,7 +365,14 @@ pub fn run(c: &Ctx) {
                 for mask in 0..(1u32 << cands.len()) {
                     let present: Vec<String> = cands.iter().enumerate().filter(|(i, _)| mask & (1 << i) != 0).map(|(_, d)| d.clone()).collect();
                     for n in CFG_NAMES {
-                        cfg_cases.push(CfgCase { env: e.clone(), present: present.clone(), stdfs: false, name: n.to_string() });
+                        cfg_cases.push(CfgCase { env: e.clone(), present: present.clone(), stdfs: false, name: n.to_string(), cwd: None, decoys: vec![] });
+                        // a relative candidate is relative to the filesystem's cwd: the same lookup from a cwd below
+                        // the root, with a namesake of the candidate below the root holding the file when the
+                        // candidate itself does not
+                        if x == Some("rel/cfg") {
+                            let decoys = if present.iter().any(|d| d == "rel/cfg") { vec![] } else { vec![format!("/rel/cfg/{}", n)] };
+                            cfg_cases.push(CfgCase { env: e.clone(), present: present.clone(), stdfs: false, name: n.to_string(), cwd: Some("/work".into()), decoys });
+                        }
                     }
                 }
             }
@@ -419,7 +432,7 @@ pub fn run(c: &Ctx) {
                 for mask in 0..(1u32 << cands.len()) {
                     let present: Vec<String> = cands.iter().enumerate().filter(|(i, _)| mask & (1 << i) != 0).map(|(_, d)| d.clone()).collect();
                     for n in CFG_NAMES {
-                        std_cases.push(CfgCase { env: e.clone(), present: present.clone(), stdfs: true, name: n.to_string() });
+                        std_cases.push(CfgCase { env: e.clone(), present: present.clone(), stdfs: true, name: n.to_string(), cwd: None, decoys: vec![] });
                     }
                 }
             }
